@@ -20,7 +20,7 @@ func init() {
 			"the snapshot's same part under the flag computed for that part; the compiled cache is invalidated whenever the policies are replaced; R5.3 the loop over a variable's values is a " +
 			"full range whose every iteration reaches the recursive step; R5.4 substitution and variable discovery descend into the same value kinds, every occurrence inside a record is " +
 			"replaced (the per-entry store is guarded only by that entry's changed flag) and every member of a changed set is rebuilt; R5.5 the batch authorizer loop obeys the decision table " +
-			"(checked under C02); R5.6 the four request parts are converted from the same-named environment parts, the substitution map and the compiled policies are attached, and the callback is " +
+			"(R2.1, R2.2, R2.3 and R2.6 of C02 applied to the batch loop here, under those names); R5.6 the four request parts are converted from the same-named environment parts, the substitution map and the compiled policies are attached, and the callback is " +
 			"invoked once with that result and its error returned; R5.7 the recursion consumes one variable per level (re-slice [1:] dominates the recursive call; the empty list authorizes " +
 			"instead of recursing). Not decided: exact once-per-element counting, equivalence of staged partial evaluation (C06).",
 		Run: runC05,
@@ -83,6 +83,20 @@ func runC05(p *Prog, r *Report) {
 	c5Callback(p, r)
 	c5Cache(p, r)
 	c5Discovery(p, r, auth)
+	// R5.5 sibling authorizer: the batch package has its own copy of the decision loop; the decision-table rules of C02
+	// (R2.1 no early exit, R2.2 classification, R2.3 decision, R2.6 fresh accumulators) are applied to that copy here,
+	// under their own names
+	nb := 0
+	for _, al := range findAuthLoops(p) {
+		if fnPkgPath(al.outer) == pBatch {
+			nb++
+			checkAuthLoop(p, r, al)
+		}
+	}
+	if nb == 0 {
+		r.Anchor("R5.5-sibling-authorizer", "the decision loop of x/exp/batch (a call of eval.BoolEvaler.Eval)")
+	}
+	r.Floor("R2.2-classification", 6)
 	r.Floor("R5.1-error-propagation", 8)
 	r.Floor("R5.2-save-restore", 8)
 	r.Floor("R5.3-every-value", 2)
